@@ -249,10 +249,20 @@ fn text_string(r: &mut StdRng, c: &str) -> String {
         "slashes" => ["a/b", "/lead", "trail/", "a//b", "../up"][r.gen_range(0..5)].to_string(),
         "plus_space" => ["a+b c", "+", " ", "1 + 1 = 2"][r.gen_range(0..4)].to_string(),
         "message_like" => message_like(r),
+        "long_unicode" => long_unicode(r),
         // a marker that the encoders below turn into bytes that are not UTF-8
         "invalid_utf8" => "ab\u{e000}INVALID\u{e000}cd".to_string(),
         _ => String::new(),
     }
+}
+
+/// 56..72 ASCII digits, then multi-byte characters, then more digits: wherever a byte-offset cut falls around
+/// 64 (or 60, or 70) it is likely to fall inside a character.
+fn long_unicode(r: &mut StdRng) -> String {
+    let head: String = (0..r.gen_range(56..72)).map(|_| (b'0' + r.gen_range(0..10)) as char).collect();
+    let mid = ["\u{e9}", "\u{65e5}\u{672c}", "\u{1f600}", "\u{e9}\u{e9}\u{e9}\u{e9}"][r.gen_range(0..4)];
+    let tail: String = (0..r.gen_range(0..12)).map(|_| (b'0' + r.gen_range(0..10)) as char).collect();
+    format!("{}{}{}", head, mid, tail)
 }
 
 /// Text that reads like part of a deserialiser's error message.
@@ -296,6 +306,7 @@ fn text_value(r: &mut StdRng, ty: &str, c: &str) -> (String, Option<Value>) {
             (s.clone(), Some(json!(s)))
         }
         _ if ty != "string" && c == "message_like" => (message_like(r), None),
+        _ if ty != "string" && c == "long_unicode" => (long_unicode(r), None),
         "bool" => match c {
             "true" => ("true".into(), Some(json!(true))),
             "false" => ("false".into(), Some(json!(false))),
